@@ -637,8 +637,20 @@ def builtin(I, name, a, kwargs, node, _no_override=False):
             return v
         els = seq_elts(I, v, node)
         return ListLit(els) if name == "list" else TupS(els)
-    if name == "set":
-        return SetS(seq_elts(I, a[0], node)) if a else SetS([])
+    if name in ("set", "frozenset"):
+        if not a:
+            return SetS([])
+        elts, seen = [], set()
+        for x in seq_elts(I, a[0], node):
+            if isinstance(x, Const):
+                try:
+                    if x.v in seen:
+                        continue
+                    seen.add(x.v)
+                except TypeError:
+                    pass
+            elts.append(x)
+        return SetS(elts)
     if name == "map":
         f, seq = a[0], a[1]
         if isinstance(seq, ListOf):
@@ -709,6 +721,12 @@ def builtin(I, name, a, kwargs, node, _no_override=False):
             return TupS([lv[0].derive("divmod[0]", "number"), lv[0].derive("divmod[1]", "number")])
     if name in ("sorted", "reversed"):
         v = a[0]
+        if isinstance(v, SetS):
+            if name == "reversed":
+                raise _Raise("TypeError: 'set' object is not reversible", ["TypeError", "Exception", "BaseException", "object"])
+            v = ListLit(list(v.elts))
+        if isinstance(v, DictS):
+            v = ListLit([Const(k) for k in v.items])
         if name == "sorted" and isinstance(v, ListLit) and all(isinstance(x, Const) for x in v.elts) and not kwargs:
             return ListLit(sorted(v.elts, key=lambda c: c.v))
         if name == "reversed" and isinstance(v, (ListLit, TupS)):
@@ -727,7 +745,7 @@ def builtin(I, name, a, kwargs, node, _no_override=False):
                     raise _Raise.of(e, "sorted")
                 return ListLit([v.elts[i] for i in order])
             return Top("sorted() of non-constant elements", deps=I.leaves(v))
-        return v
+        return Top(f"{name}() of a value of unknown shape", deps=I.leaves(v))
     if name in ("min", "max", "sum", "any", "all"):
         try:
             vals = [to_py(x) for x in (seq_elts(I, a[0], node) if len(a) == 1 else a)]
